@@ -9,10 +9,10 @@ make -j16 check >/tmp/seedconf_$t.log 2>&1
 if grep -q "PASSED  \] 341 tests" test/test_all.log && grep -q "^PASS test_all" test/test_all.log; then echo "TESTS: 341 pass with the change"; else echo "TESTS: FAIL"; tail -5 test/test_all.log; fi
 grep -c "warning:" /tmp/seedconf_$t.log | sed 's/^/warnings in build log: /'
 echo "--- demo on the changed tree"
-(cd $out && timeout 600 sh ./run_demo.sh 2>&1 | grep -E "PROPERTY (VIOLATED|HOLDS)" | head -3)
+(cd $out && timeout 600 bash ./run_demo.sh 2>&1 | grep -E "PROPERTY (VIOLATED|HOLDS)" | head -3)
 git checkout -q -- htp
 make -j16 -C htp >/dev/null 2>&1
 echo "--- demo on the unchanged tree"
-(cd $out && timeout 600 sh ./run_demo.sh 2>&1 | grep -E "PROPERTY (VIOLATED|HOLDS)" | head -3)
+(cd $out && timeout 600 bash ./run_demo.sh 2>&1 | grep -E "PROPERTY (VIOLATED|HOLDS)" | head -3)
 git apply $out/patch.diff
 rm -f /tmp/seedconf_$t.log
